@@ -112,7 +112,7 @@ def model_clean(key, v, limit):
     return False, None
 
 
-KEYS = ['k1', 'k2', 'k3', 'k4', 'k5', '', 5, None]
+KEYS = ['k1', 'k2', 'k3', 'k4', 'k5', '', 5, None, (), ('k1', 'k2'), ('k1',)]
 VSPEC = st.one_of(*[st.tuples(st.just(k), st.integers(0, 12)) for k in
                     ['str', 'str', 'bytes', 'badbytes', 'bool', 'int', 'float', 'none', 'seq_str', 'seq_int', 'seq_mixed',
                      'seq_bool_int', 'seq_none', 'seq_nested', 'seq_bytes', 'seq_badbytes', 'seq_empty', 'dict', 'obj']])
@@ -164,7 +164,8 @@ class C18(Prop):
                                      'bulk': st.sampled_from([0, 0, 0, 0, 40, 130, 300])})
         merge = fd({'mode': st.just('merge'), 'chain': st.lists(res, min_size=2, max_size=5)})
         envitem = st.one_of(st.tuples(st.sampled_from(['a', 'b', 'service.name', ' padded ', 'telemetry.sdk.name']),
-                                      st.sampled_from(['1', 'v%20x', ' sp ', '', 'a=b', 'z'])).map(lambda t: '%s=%s' % t),
+                                      st.sampled_from(['1', 'v%20x', ' sp ', '', 'a=b', 'z', 'x%2Cy', 'p%3Dq', '%20lead',
+                                                       'x%2Cb%3Dshadow', '100%25'])).map(lambda t: '%s=%s' % t),
                             st.sampled_from(['novalue', '', '=', ' ']))
         create = fd({
             'mode': st.just('create'),
